@@ -36,7 +36,7 @@ func newForger(c *Case, p *primParty, sig []byte) (*forger, error) {
 
 	var err error
 
-	f.pok, err = bbs.VerifNewPoK(msgsOf(c.Msgs), sig, p.pub, sortedCopy(c.R))
+	f.pok, err = bbs.VerifNewPoK(msgsOf(c.Msgs), sig, p.pub, dedup(c.R))
 	if err != nil {
 		return nil, err
 	}
@@ -203,7 +203,7 @@ func (f *forger) build(a *Attack) ([]byte, error) {
 func (f *forger) transcriptLabels(pads []int, extra int) ([]int, error) {
 	aP, aB, d := f.pok.Points()
 	t1, t2 := f.pok.Commitments()
-	rs := sortedCopy(f.c.R)
+	rs := dedup(f.c.R)
 	rev := append(append([]int{}, rs...), pads...)
 
 	ids := revealedIDs(f.c)
